@@ -73,7 +73,7 @@ def run(pid, tier, seed, replay, t0):
     # ---- 1. translators + lake build
     ok, out = vlib.run_translators()
     if not ok:
-        broken.append({'what': 'obligation', 'name': 'translator tools/gen_dq.py', 'detail': out[-2000:]})
+        broken.append({'what': 'obligation', 'name': 'translator tools/gen_*.py (source → Lean)', 'detail': out[-2000:]})
     for gen in getattr(P, 'translators', []):
         ok, out = gen(ctx)
         if not ok:
